@@ -483,7 +483,7 @@ MUTATORS = {"append", "extend", "add", "update", "pop", "popitem", "remove", "cl
 
 def r20_10_shared_defaults_and_memo(repo: Repo, rep: Report):
     rep.rule("R20.10", "no object is shared through a class-level default (dataclass fields get per-instance objects through default_factory); results handed out by a memoising getter are not modified by the caller")
-    IMMUTABLE_CALLS = {"frozenset", "tuple", "field", "int", "str", "bytes", "float", "bool", "con", "BitVecVal", "BitVecSort", "Lock", "RLock"}
+    IMMUTABLE_CALLS = {"frozenset", "tuple", "field", "int", "str", "bytes", "float", "bool", "con", "BitVecVal", "BitVecSort", "Path", "PurePath", "Decimal", "Fraction"}
     n = 0
     for modname, m in repo.modules.items():
         for cls in [c for c in ast.walk(m.tree) if isinstance(c, ast.ClassDef)]:
